@@ -62,6 +62,25 @@ func genC14(g *gen) {
 			}
 		}
 	}
+	// challenge seeds whose expansion rejects unusually many candidates (found with `harness challengescan`): put in front
+	// of an otherwise genuine signature, Verify and Open must turn it away without a fault
+	g.note("Dilithium: challenge seeds with long expansions")
+	{
+		zk := zeroKey()
+		zpk := zk.GetPK()
+		zm := []byte("challenge")
+		zs, _ := zk.Sign(zm)
+		for _, cs := range loadCorpus("challenge-long")["challenge-long"] {
+			b := append([]byte{}, zs[:]...)
+			copy(b, cs)
+			l1 := fmt.Sprintf("dl.verify %s %s %s", hx(zm), hx(b), hx(zpk[:]))
+			g.total(g.op("%s", l1), l1)
+			l2 := fmt.Sprintf("dl.open %s %s", hx(append(append([]byte{}, b...), zm...)), hx(zpk[:]))
+			g.total(g.op("%s", l2), l2)
+			l3 := "dl.challenge " + hx(cs)
+			g.total(g.op("%s", l3), l3)
+		}
+	}
 	g.note("XMSS verification: sizes around every boundary, w in {4,16,256}")
 	msg := g.bytes(5)
 	pk := g.bytes(67)
